@@ -9,3 +9,16 @@ import (
 // Accessors for the verification harness (add-only, compiled only with -tags verif).
 
 func (node *Node) VerifBlocks() *internalStorage.BlockRepository { return node.blocks }
+
+// VerifPushDataHashes returns a copy of the subscription list.
+func (node *Node) VerifPushDataHashes() [][]byte {
+	node.pushDataLock.Lock()
+	defer node.pushDataLock.Unlock()
+	r := make([][]byte, 0, len(node.pushDataHashes))
+	for _, h := range node.pushDataHashes {
+		c := make([]byte, len(h))
+		copy(c, h[:])
+		r = append(r, c)
+	}
+	return r
+}
